@@ -7,6 +7,10 @@ struct C08CPlan
   int keep;              // >= 0: a second handle outside the chain holds this node until the end
   int move[C08C_MAXN];   // advance step k: 0 head = head->next, 1 head = std::move(head->next), 2 head = head->next.ptr (raw)
   int self_at;           // >= 0: before this step, head = head (copy) and head = std::move(head) are executed
+  int cycle;             // 1: the last node points back at node 0 and no outside handle is left; the cycle is then broken by assigning
+                         //    to one member handle through a plain pointer: the assignment releases the object its own target lives in
+  int break_at;          // node whose member handle is assigned to
+  int break_kind;        // 0 = handle to node Z, 1 = temporary handle to Z (move), 2 = Z's plain pointer, 3 = nullptr, 4 = empty handle
 };
 extern "C" {
 const C08CPlan *c08c_plan();
@@ -14,6 +18,9 @@ void c08c_node_created(int id);
 void c08c_node_destroyed(int id);
 void c08c_linked(int from, int to);
 void c08c_roots(int head, int keep);                 // initial handles are in place, creator references released
+void c08c_zroot(int z);                               // an outside handle on the extra node Z (-1: dropped)
+void c08c_break_begin(int node, int to);              // node's member handle is assigned to (to = -1: emptied)
+void c08c_drop_head_begin(void);
 void c08c_step_begin(int step, int kind);
 void c08c_step_end(int step, int head_id);
 int c08c_alive(int id);                              // model: the node must still exist
